@@ -169,6 +169,83 @@ impl World for SeqVsPar {
 }
 
 // ---------------------------------------------------------------------------------------------
+// history independence: the same (configuration, problem, seed) gives the same run whatever ran
+// before it on this OS thread - the reference is the run on a fresh OS thread (no thread-local
+// history), the candidate runs after a run of the same configuration on a sibling instance that
+// has the same name and size
+
+pub struct HistoryIndependence;
+
+fn sibling_spec(p: &ProblemSpec) -> ProblemSpec {
+    use crate::tw::problems::*;
+    match p {
+        ProblemSpec::Real(s) => ProblemSpec::Real(RealP::new(s.clone()).sibling().spec.clone()),
+        ProblemSpec::Bin(s) => ProblemSpec::Bin(BinP::new(s.clone()).sibling().spec.clone()),
+        ProblemSpec::Tsp(s) => ProblemSpec::Tsp(TspP::new(s.clone()).sibling().spec.clone()),
+    }
+}
+
+impl World for HistoryIndependence {
+    type Case = TCase;
+    fn name(&self) -> &'static str {
+        "history-independence"
+    }
+    fn generate(&self, run_seed: u64, tier: Tier) -> TCase {
+        let mut g = rng::stream(run_seed, "workload");
+        let kind = *g.pick(&SHIPPED);
+        let opts = GenOpts { penalty: false, max_iters: tier.pick(6, 15), evaluations_term: false, log: true };
+        gen_case(&mut g, kind, &opts)
+    }
+    fn execute(&self, c: &TCase) -> Outcome<TCase> {
+        let mut out = Outcome::new();
+        let case = Arc::new(c.clone());
+        // reference: a fresh OS thread has no thread-local history
+        let fresh = {
+            let case = case.clone();
+            std::thread::spawn(move || {
+                let r = run_sequential(&case);
+                let _ = std::fs::remove_dir_all(crate::simio::scratch_dir());
+                r
+            })
+            .join()
+        };
+        let Ok(fresh) = fresh else {
+            eprintln!("harness error: reference run on a fresh thread panicked outside its guards");
+            std::process::exit(2);
+        };
+        if let RunResult::BuildErr(e) = &fresh.result {
+            eprintln!("harness error: template constructor rejected generated parameters ({:?}): {e}", case.kind);
+            std::process::exit(2);
+        }
+        // this thread: first the sibling instance (same name, same size, other data) ...
+        let prior = Arc::new(TCase { problem: sibling_spec(&c.problem), ..c.clone() });
+        let before = run_sequential(&prior);
+        // ... then the case itself
+        let again = run_sequential(&case);
+        out.evaluations = 3;
+        out.steps = fresh.steps + before.steps + again.steps;
+        bump(&mut out.counters, "fault:earlier run of the same configuration on a same-named sibling instance on this thread", 1);
+        let mut fp = Fp::new();
+        fp.u64(fresh.fingerprint);
+        if fresh.calls > 0 {
+            out.fingerprints.push(fp.0);
+        }
+        if fresh.result != again.result {
+            out.violation = Some((Violation::new("run-depends-on-thread-history in=result", format!("{}: on a fresh thread {:?}, after a run on a same-named sibling instance {:?}", case.kind.name(), fresh.result, again.result)), c.clone()));
+        } else if let Some(what) = digest_diff(&fresh.digest, &again.digest) {
+            out.violation = Some((
+                Violation::new(format!("run-depends-on-thread-history in={what}"), format!("{}: the run on a fresh thread and the run after an earlier run on a same-named sibling instance (same configuration, same seed) end in a different {what}", case.kind.name())),
+                c.clone(),
+            ));
+        }
+        out
+    }
+    fn shrink(&self, c: &TCase) -> Vec<TCase> {
+        shrink_case(c)
+    }
+}
+
+// ---------------------------------------------------------------------------------------------
 // generators: children are a function of the seed; a supplied generator is never replaced
 
 #[derive(Clone, Debug, Serialize, Deserialize)]
@@ -326,6 +403,7 @@ pub fn run(tier: Tier, seed: u64, known: &KnownFindings) -> CheckReport {
     let mk = |batch: &'static str, runs: u64| BatchConfig { check_id: "C08", batch, base_seed: seed, tier, runs, threads: threads(), known, samples: 1 };
     let b1 = run_batch(&SeqVsPar { prop: "C08", name: "seq-vs-par", mix: false }, &mk("sequential-vs-parallel", tier.pick(2_000, 80_000)));
     let b2 = run_batch(&Generators, &mk("generators", tier.pick(20_000, 300_000)));
+    let b4 = run_batch(&HistoryIndependence, &mk("history-independence", tier.pick(3_000, 100_000)));
     let b3 = {
         // par_experiment prints a line per call
         let _quiet = StdoutSilencer::new();
@@ -336,14 +414,14 @@ pub fn run(tier: Tier, seed: u64, known: &KnownFindings) -> CheckReport {
         tier,
         seed,
         level: "exploration",
-        rule: "sequential-vs-parallel: one case = (template, parameters, instance, seed) run with the sequential evaluator, through a cloned configuration, and with problems::evaluate::Parallel on 1/2/3/4/8 simulated workers under 3..8 seeded schedules (uniform-random, sticky and PCT schedulers; the hand-out order of individuals is part of the schedule); the digest (population stack with solution bits and objectives, best individual, evaluation and iteration counters, decoded log, next word of the state's generator) must be identical; non-trivial = the parallel run made objective calls; distinct = distinct (workload, recorded schedule) pairs. generators: children of a seeded generator are a function of the seed, other seeds give other streams, children keep the parent's backend, optimize_with keeps a supplied non-default generator and is repeatable. par-experiment: par_experiment with <= 6 runs x <= 3 problems on simulated workers under seeded schedules: every (run, problem) digest and every decoded log file equals the run executed alone with Random::new(run); configuration.ron equals to_ron; the file set is exact".into(),
+        rule: "history-independence: one case = a shipped template run (a) on a fresh OS thread and (b) on the harness thread right after a run of the same configuration on a sibling instance with the same name and size (renumbered, rescaled data): same seed, same digest - a run is not a function of what the thread or process did before. sequential-vs-parallel: one case = (template, parameters, instance, seed) run with the sequential evaluator, through a cloned configuration, and with problems::evaluate::Parallel on 1/2/3/4/8 simulated workers under 3..8 seeded schedules (uniform-random, sticky and PCT schedulers; the hand-out order of individuals is part of the schedule); the digest (population stack with solution bits and objectives, best individual, evaluation and iteration counters, decoded log, next word of the state's generator) must be identical; non-trivial = the parallel run made objective calls; distinct = distinct (workload, recorded schedule) pairs. generators: children of a seeded generator are a function of the seed, other seeds give other streams, children keep the parent's backend, optimize_with keeps a supplied non-default generator and is repeatable. par-experiment: par_experiment with <= 6 runs x <= 3 problems on simulated workers under seeded schedules: every (run, problem) digest and every decoded log file equals the run executed alone with Random::new(run); configuration.ron equals to_ron; the file set is exact".into(),
         assumptions: vec![
             "rayon's work-stealing scheduler is replaced by the simulated pool (shims/rayon); interleavings are explored at objective-call, queue and I/O granularity (DESIGN.md section 2.3)".into(),
             "a seeded schedule is replayed by re-running the same scheduler seed; the recorded sequence of task ids is hashed into the violation message so a replay shows it took the same schedule".into(),
         ],
         real_components: vec!["mahf::problems::evaluate::{Sequential, Parallel}, mahf::experiments::par_experiment, mahf::state::random::Random, Configuration::{run, optimize_with, clone}".into(), "all template components".into()],
         stubbed_components: vec!["rayon (simulated worker pool on shuttle threads)".into(), "indicatif (inert)".into(), "the disk's failure behaviour in the par-experiment batch (SimDisk fault layer in front of real scratch files)".into()],
-        batches: vec![b1, b2, b3],
+        batches: vec![b1, b2, b3, b4],
         extra: Default::default(),
     }
 }
